@@ -896,6 +896,8 @@ def _expand_when_stmt_element(
             group_match_elements[case_idx].append([])
             group_assignment_elements[case_idx].append([])
             for group_element in and_group["elements"]:
+                # A spec can be shared by several and-groups of the normalized group
+                group_element = copy.deepcopy(group_element)
                 match_element = copy.deepcopy(group_element)
                 ref_uid = None
                 temp_ref_uid: str
